@@ -686,11 +686,12 @@ pub async fn handle_changes(
                 continue;
             }
         } else {
-            // empty versions
-            if change
-                .versions()
-                .all(|v| seen.contains_key(&(change.actor_id, v)))
-            {
+            // empty versions: only an empty changeset seen before counts (its entry holds no
+            // seqs); chunks of a version we hold partially must not hide the news that it is empty
+            if change.versions().all(|v| {
+                seen.get(&(change.actor_id, v))
+                    .is_some_and(|seqs| seqs.is_empty())
+            }) {
                 continue;
             }
         }
@@ -740,6 +741,9 @@ pub async fn handle_changes(
                     if let Entry::Occupied(mut entry) = seen.entry((dropped_change.actor_id, v)) {
                         if let Some(seqs) = dropped_change.seqs().cloned() {
                             entry.get_mut().remove(seqs);
+                            if entry.get().is_empty() {
+                                entry.swap_remove_entry();
+                            }
                         } else {
                             entry.swap_remove_entry();
                         }
